@@ -11,6 +11,7 @@ import (
 	"google.golang.org/protobuf/encoding/protojson"
 	"google.golang.org/protobuf/encoding/prototext"
 	"google.golang.org/protobuf/proto"
+	"google.golang.org/protobuf/reflect/protoreflect"
 )
 
 // variants of a case: the same value again, one slot moved to its next candidate, one slot cleared, empty.
@@ -210,8 +211,107 @@ func evalC10(h *hz.H, sp *enum.Space, c enum.Case, b bounds, replayDet *bool, au
 			}
 		}
 	}
+	c10Artefacts(h, sp, c, d, viol)
 	if h.WantSample() && len(c) > 1 {
 		js, _ := protojson.Marshal(d)
 		h.Sample(map[string]interface{}{"value": sp.Label(c), "pair_variants": labels, "json": clips(string(js))})
+	}
+}
+
+// slowMsg presents protobuf-go's own struct reflection over a generated struct to the generic algorithms.
+type slowMsg struct{ m protoreflect.Message }
+
+func (s slowMsg) ProtoReflect() protoreflect.Message { return s.m }
+
+// c10Artefacts: the value plus one of the states plain Go code builds (a nil message as list element / map value, a oneof
+// member selected with nil inside its wrapper). The reference is protobuf-go's table-driven reflection over an identical
+// struct; states it does not accept (panics) are not judged.
+func c10Artefacts(h *hz.H, sp *enum.Space, c enum.Case, d proto.Message, viol func(oracle, what string)) {
+	fs := sp.MD.Fields()
+	for i := 0; i < fs.Len(); i++ {
+		fd := fs.Get(i)
+		isMsgList := fd.IsList() && fd.Kind() == protoreflect.MessageKind
+		isMsgMap := fd.IsMap() && fd.MapValue().Kind() == protoreflect.MessageKind
+		isOneofMsg := fd.ContainingOneof() != nil && !fd.ContainingOneof().IsSynthetic() && fd.Kind() == protoreflect.MessageKind && d.ProtoReflect().WhichOneof(fd.ContainingOneof()) == nil
+		if !isMsgList && !isMsgMap && !isOneofMsg {
+			continue
+		}
+		what := "nil-element"
+		if isOneofMsg {
+			what = "oneof-wrapper-holding-nil"
+		}
+		mk := func() proto.Message {
+			g := enum.BuildGo(d.ProtoReflect())
+			if isOneofMsg {
+				if !enum.InjectNilOneof(g, fd) {
+					return nil
+				}
+			} else if !enum.InjectNil(g, int(fd.Number())) {
+				return nil
+			}
+			return g
+		}
+		x, y := mk(), mk()
+		if x == nil || y == nil {
+			continue
+		}
+		sw := func(p proto.Message) proto.Message { return slowMsg{enum.Slow(p)} }
+		plain := func() proto.Message { return enum.BuildGo(d.ProtoReflect()) }
+		// reference verdicts
+		var want [6]bool
+		var refJSON, refText []byte
+		var refJE, refTE error
+		var refMerged string
+		if p := hz.Catch(func() {
+			rx, ry := sw(mk()), sw(mk())
+			want[0] = proto.Equal(rx, ry)
+			want[1] = proto.Equal(ry, rx)
+			want[2] = proto.Equal(rx, sw(proto.Clone(rx)))
+			want[3] = proto.Equal(sw(proto.Clone(rx)), rx)
+			want[4] = proto.Equal(rx, sw(plain()))
+			want[5] = proto.Equal(sw(plain()), rx)
+			refJSON, refJE = protojson.Marshal(rx)
+			refText, refTE = prototext.Marshal(rx)
+			// generic reflective merge out of the reference view (protobuf-go's table-driven merge drops -0, the
+			// reflective one that generated messages go through does not: only the latter is the yardstick here)
+			dst := enum.NewDyn(sp.MD)
+			proto.Merge(dst, rx)
+			refMerged = enum.Canon(dst, false)
+		}); p != nil {
+			h.Counter("artefact_states_the_reference_does_not_accept_not_judged", 1)
+			continue
+		}
+		h.Eval(true, hz.Hash("C10artefact", string(sp.MD.FullName()), string(fd.Name()), sp.Label(c)))
+		var got [6]bool
+		var js, tx []byte
+		var je, te error
+		var merged string
+		if p := hz.Catch(func() {
+			got[0] = proto.Equal(x, y)
+			got[1] = proto.Equal(y, x)
+			got[2] = proto.Equal(x, proto.Clone(x))
+			got[3] = proto.Equal(proto.Clone(x), x)
+			got[4] = proto.Equal(x, plain())
+			got[5] = proto.Equal(plain(), x)
+			js, je = protojson.Marshal(x)
+			tx, te = prototext.Marshal(x)
+			dst := enum.NewGo(sp.MD)
+			proto.Merge(dst, x)
+			merged = enum.Canon(enum.Slow(dst), true)
+		}); p != nil {
+			viol("artefact-panic/"+what+"#"+shapeOf(fd), fmt.Sprintf("Equal/Clone/Merge/JSON/text on %s plus %s in field %s panicked (the reference handles the same struct): %v", sp.Label(c), what, fd.Name(), p))
+			continue
+		}
+		if got != want {
+			viol("artefact-equal/"+what+"#"+shapeOf(fd), fmt.Sprintf("%s plus %s in field %s: Equal(x,y) Equal(y,x) Equal(x,Clone(x)) Equal(Clone(x),x) Equal(x,without) Equal(without,x) = %v; the reference over the same structs says %v", sp.Label(c), what, fd.Name(), got, want))
+			continue
+		}
+		if (je == nil) != (refJE == nil) || je == nil && string(js) != string(refJSON) || (te == nil) != (refTE == nil) || te == nil && string(tx) != string(refText) {
+			viol("artefact-json-text/"+what+"#"+shapeOf(fd), fmt.Sprintf("%s plus %s in field %s: protojson %s (err %v) / prototext %s (err %v); the reference gives %s (err %v) / %s (err %v)", sp.Label(c), what, fd.Name(), clips(string(js)), je, clips(string(tx)), te, clips(string(refJSON)), refJE, clips(string(refText)), refTE))
+			continue
+		}
+		if merged != refMerged {
+			viol("artefact-merge/"+what+"#"+shapeOf(fd), fmt.Sprintf("Merge(empty, %s plus %s in field %s) = %s; the reference gives %s", sp.Label(c), what, fd.Name(), clips(merged), clips(refMerged)))
+		}
 	}
 }
